@@ -183,10 +183,18 @@ def specLatest (h : List Op) (o : Obs) : Option String :=
         | none => none
         | some (_, l) => if a.identity ≠ identOf l then some "identity-of-a-superseded-login" else none
 
+/-- the identity content of every emitted event — subjects, source, target — is, as a whole, the identity of ONE login
+that was delivered (an event is rendered from the stored login, never from parts of two). Proved of the model for all
+histories: `C14S.whole_identity_spec_holds`. -/
+def specWholeIdentity (h : List Op) (o : Obs) : Option String :=
+  o.acts.findSome? fun (a : ObsAction) =>
+    if (loginOps h).any fun l => decide (identOf l.2 = a.identity) then none
+    else some "identity-content-is-no-single-login's"
+
 def specC01 (h : List Op) (o : Obs) : Option String :=
   match (if !wfNoReuse h then none else specIdentity h o) with
   | some c => some c
-  | none => specLatest h o
+  | none => (specLatest h o).orElse fun _ => specWholeIdentity h o
 
 /-- C04's safety clause, for EVERY history: an emitted event has a session; a LOGIN-type record of that session and a
 login whose PID is that record's PID and whose identity is the event's have both been delivered no later than the
@@ -320,14 +328,6 @@ def specRender (h : List Op) (o : Obs) : Option String :=
     match (auditRecs h).find? fun r => r.2.ts = a.ts with
     | none => some "event-with-unknown-timestamp"
     | some (_, e) => (renderClause e a).orElse fun _ => some "rendering"
-
-/-- the identity content of every emitted event — subjects, source, target — is, as a whole, the identity of ONE login
-that was delivered (an event is rendered from the stored login, never from parts of two). Proved of the model for all
-histories: `C14S.whole_identity_spec_holds`. -/
-def specWholeIdentity (h : List Op) (o : Obs) : Option String :=
-  o.acts.findSome? fun (a : ObsAction) =>
-    if (loginOps h).any fun l => decide (identOf l.2 = a.identity) then none
-    else some "identity-content-is-no-single-login's"
 
 def specC14 (h : List Op) (o : Obs) : Option String :=
   match (specRender h o).orElse fun _ => specWholeIdentity h o with
